@@ -31,9 +31,22 @@ FUNCTIONS = [
 ]
 BOUNDS = ("10 compilers + 3 pipelines x the skeleton problems of vf/compfam.py (2 objects, <= 2 actions, all numeric leaves concrete), every Boolean "
           "initial value combination by choice variables; all compiled plans of length <= 3 (quick) / 4 (thorough) by BMC")
-OUTSIDE = "plans longer than k; problems outside the family; symbolic numeric leaves (the value-symbolic re-run of four compilers is not built)"
+OUTSIDE = "plans longer than k; problems outside the family; value-symbolic runs cover the value-sensitive compilers only (bounded types, conditional effects, state invariants, undefined initial numeric, grounder, disjunctive conditions) with <= 2 symbolic leaves in small windows and plans <= 2 (quick) / 3 (thorough)"
 ASSUMPTIONS = ["R (vf/refsem.py) encodes the documented semantics on both sides; an encoder mistake tends to cancel, and C01 ties R to the real simulator",
                "PDDL3 semantics of sometime / at-most-once / sometime-before / sometime-after as in vf/tv.py"]
+
+
+SYM_PROGRAMS = [
+    ("bounded_types", 0, ["x0", "ub"]), ("bounded_types", 0, ["d", "ub"]), ("bounded_types", 1, ["d", "ub"]), ("bounded_types", 3, ["d", "lb"]),
+    ("conditional_effects", 2, ["c2", "x0"]), ("conditional_effects", 3, ["c", "x0"]), ("conditional_effects", 3, ["d", "ub"]),
+    ("state_invariants", 1, ["x0", "c3"]), ("state_invariants", 1, ["d", "c3"]),
+    ("undefined_initial_numeric", 0, ["c1", "x0"]), ("undefined_initial_numeric", 2, ["x0"]), ("undefined_initial_numeric", 4, ["d"]),
+    ("grounder", 3, ["x0", "c"]), ("disjunctive_conditions", 3, ["x0", "c"]),
+]
+SYM_PROGRAMS_THOROUGH = [
+    ("bounded_types", 2, ["c1", "ub"]), ("bounded_types", 1, ["x0", "d"]), ("conditional_effects", 2, ["c2", "c"]),
+    ("state_invariants", 1, ["x0", "d"]), ("undefined_initial_numeric", 5, ["d", "c1"]),
+]
 
 
 def _mk(ctx, cname, sk):
@@ -96,6 +109,14 @@ def shards(tier, seed):
     for cname, i, sk in compfam.programs(tier):
         out.append(dict(name=f"{cname}-{i}", fn="h_sound", engine="direct", kwargs=dict(cname=cname, sk=sk, k=k),
                         budget=150 if tier == "quick" else 1500, query_timeout=60))
+    # value-symbolic re-run of the value-sensitive compilers (E1): the numeric leaves named in `sym` are solver variables,
+    # the real compile() runs under the tracer, and the same BMC query is posed on the PATH solver (so it is decided for
+    # every value of the leaves on that path, with R splicing the symbolic constants in)
+    for cname, i, sym in SYM_PROGRAMS if tier == "quick" else SYM_PROGRAMS + SYM_PROGRAMS_THOROUGH:
+        sk = dict(compfam.FAMILY[cname][i], sym=sym)
+        sk.pop("values", None)
+        out.append(dict(name=f"sym-{cname}-{i}-{'_'.join(sym)}", fn="h_sound", engine="symex", kwargs=dict(cname=cname, sk=sk, k=2 if tier == "quick" else 3),
+                        budget=150 if tier == "quick" else 1500, per_path=60))
     return out
 
 
